@@ -4,7 +4,7 @@
 
    Trusted correspondence with CPython (checked on every run by K on generated tokens/lines):
    str.strip / str.split() use the ASCII isspace set {9..13, 28..31, 32}; int() accepts
-   [ws] [+-] digits with single underscores between digits [ws]; float() accepts the grammar
+   [C-ws] [+-] digits with single underscores between digits [ws]; float() accepts the grammar
    of float_plain below; CPython's 4300-digit limit of int() is NOT modelled. *)
 From Coq Require Import List Ascii String ZArith NArith Bool Lia.
 From GM Require Import Base.Res.
@@ -21,6 +21,8 @@ Definition in_range (lo hi : N) (c : ascii) : bool := (N.leb lo (ccode c) && N.l
 
 (* str.isspace on ASCII: \t \n \v \f \r, FS GS RS US, space *)
 Definition is_space (c : ascii) : bool := in_range 9 13 c || in_range 28 32 c.
+(* C isspace, used by int() and float() on ASCII text: FS GS RS US are NOT skipped there *)
+Definition is_cspace (c : ascii) : bool := in_range 9 13 c || in_range 32 32 c.
 Definition is_digit (c : ascii) : bool := in_range 48 57 c.
 Definition digit_val (c : ascii) : N := (ccode c - 48)%N.
 
@@ -48,6 +50,7 @@ Fixpoint takewhile (p : ascii -> bool) (s : str) : str :=
 Definition lstrip (s : str) : str := dropwhile is_space s.
 Definition rstrip (s : str) : str := rev (dropwhile is_space (rev s)).
 Definition strip (s : str) : str := rstrip (lstrip s).
+Definition cstrip (s : str) : str := rev (dropwhile is_cspace (rev (dropwhile is_cspace s))).
 Definition is_blank (s : str) : bool := forallb is_space s.      (* not s.strip() *)
 
 Definition startswith (c : ascii) (s : str) : bool :=
@@ -142,7 +145,7 @@ Fixpoint int_body (s : str) (prev_digit : bool) (acc : N) : option N :=
   end.
 
 Definition py_int (s : str) : res Z :=
-  match strip s with
+  match cstrip s with
   | [] => Err EValue
   | c :: r =>
       if Ascii.eqb c "-" then match int_body r false 0 with Some n => Ok (- Z.of_N n)%Z | None => Err EValue end
@@ -185,7 +188,7 @@ Fixpoint us_ok (s : str) (prev_digit : bool) : bool :=
   end.
 
 Definition py_float_ok (s : str) : bool :=
-  let t := strip s in
+  let t := cstrip s in
   if mem "_" t then us_ok t false && float_plain (filter (fun c => negb (Ascii.eqb c "_")) t)
   else float_plain t.
 
